@@ -141,9 +141,9 @@ Definition resolve_rel (parent : name) (inc : val) : res name :=
 Record variants := {
   tag_after : bool;       (* e62fc38: the piece after an include block has version file_version + "+" *)
   rerender : bool;        (* before fe12c42: a file already processed in this run was rendered again *)
-  empty_raises : bool     (* unpacking the zip of an empty piece list raises ValueError *)
+  empty_raises : bool     (* before ec4c1d7: unpacking the zip of an empty piece list raised ValueError *)
 }.
-Definition current_variants : variants := {| tag_after := true; rerender := false; empty_raises := true |}.
+Definition current_variants : variants := {| tag_after := true; rerender := false; empty_raises := false |}.
 
 Record config := { allow_empty_top : bool; cfg_ml : bool; cfg_ms : bool; engine_on : bool; suffix : str }.
 
